@@ -172,40 +172,56 @@ def manager_stage(ck):
     if "err" in box:
         raise box["err"]
     binary = box["bin"]
-    nhist = 0
-    # spec -> code
     hp, nh = model_histories(ck, sims)
-    trace = os.path.join(ck.dir, "mgr-model-%d.ndjson" % ck.seed)
-    rc, out = vlib.run_driver(binary, "TestMgrModel", env=dict(VERIF_OUT=trace, VERIF_IN=hp, VERIF_SEED=str(ck.seed)), timeout=900)
-    if rc != 0:
-        raise Inconclusive("manager driver (model histories) failed:\n" + out[-3000:])
-    cov, ev = validate(ck, trace, "model%d" % ck.seed, ["emits", "admitted", "roundTrips", "evictions", "lookupsFound", "published"])
-    if cov is None:
-        return
-    nhist += sum(1 for e in ev if e["ev"] == "Reset")
-    # code -> spec: scripted boundary histories + seeded random histories
     seeds = [ck.seed] if ck.tier == "quick" else [ck.seed + 1000 * i for i in range(5)]
     n, steps = (40, 40) if ck.tier == "quick" else (200, 50)
-    foreign = 0
-    for s in seeds:
-        trace = os.path.join(ck.dir, "mgr-%d.ndjson" % s)
-        rc, out = vlib.run_driver(binary, "TestMgrHistories", env=dict(VERIF_OUT=trace, VERIF_SEED=str(s), VERIF_N=str(n), VERIF_STEPS=str(steps),
-                                                                         VERIF_SCRIPTED="1" if s == seeds[0] else "0"), timeout=1200)
+    # spec -> code: the TLC-generated operation sequences; code -> spec: scripted boundary histories + seeded random histories
+    jobs = [("model%d" % ck.seed, "TestMgrModel", dict(VERIF_IN=hp, VERIF_SEED=str(ck.seed)), ["emits", "admitted", "roundTrips", "evictions", "lookupsFound", "published"])]
+    jobs += [("seed%d" % s, "TestMgrHistories", dict(VERIF_SEED=str(s), VERIF_N=str(n), VERIF_STEPS=str(steps), VERIF_SCRIPTED="1" if s == seeds[0] else "0"),
+              NEED_SCRIPTED if s == seeds[0] else NEED) for s in seeds]
+
+    def pipeline(job):
+        name, test, env, need = job
+        sub = vlib.Check(ck.pid, ck.tier, ck.seed, ck.level)      # private accumulator: two pipelines run concurrently
+        sub.dir = ck.dir
+        trace = os.path.join(ck.dir, "mgr-%s.ndjson" % name)
+        rc, out = vlib.run_driver(binary, test, env=dict(env, VERIF_OUT=trace), timeout=1200)
         if rc != 0:
-            raise Inconclusive("manager driver failed:\n" + out[-3000:])
-        cov, ev = validate(ck, trace, "seed%d" % s, NEED_SCRIPTED if s == seeds[0] else NEED)
-        if cov is None:
-            return
+            raise Inconclusive("manager driver (%s) failed:\n%s" % (name, out[-3000:]))
+        cov, ev = validate(sub, trace, name, need)
+        return sub, cov, ev
+    with ThreadPoolExecutor(max_workers=2) as ex:
+        futs = [ex.submit(pipeline, j) for j in jobs]
+        results, errs = [], []
+        for f in futs:
+            try:
+                results.append(f.result())
+            except Inconclusive as e:
+                errs.append(e)
+    nhist, foreign = 0, 0
+    for sub, cov, ev in results:
+        for k in ("states", "transitions", "traces_validated_against_impl", "evaluations"):
+            ck.cov[k] += sub.cov[k]
+        ck.cov["configs"] += sub.cov["configs"]
+        for k in ("manager_clause_antecedents", "manager_event_counts"):
+            ck.cov.setdefault(k, {}).update(sub.cov.get(k, {}))
+        ck.violations += sub.violations
+        ck.known_hit += sub.known_hit
         nhist += sum(1 for e in ev if e["ev"] == "Reset")
-        foreign += cov["foreignEmitted"]
-        if s == seeds[0]:
-            fe = [e for e in ev if e["ev"] == "Emit" and e["ck"] != e["ak"] and e["p1"] == "OK"]
-            if fe:
-                ck.sample(dict(stage="manager", observed="emitted with a chain whose key is not the announced key; rejected by stage 2",
-                               emit={k: fe[0][k] for k in ("mid", "s", "ak", "ck", "fv", "ov", "eq")}))
-            ok = [e for e in ev if e["ev"] == "Emit" and e["fv"] == "OK" and e["hasj"]]
-            if ok:
-                ck.sample(dict(stage="manager", emit={k: ok[0][k] for k in ("mid", "s", "ak", "ck", "jc", "fv", "ov", "eq")}))
+        if cov:
+            foreign += cov["foreignEmitted"]
+    if ck.violations:
+        return
+    if errs:
+        raise errs[0]
+    ev = results[1][2]
+    fe = [e for e in ev if e["ev"] == "Emit" and e["ck"] != e["ak"] and e["p1"] == "OK"]
+    if fe:
+        ck.sample(dict(stage="manager", observed="emitted with a chain whose key is not the announced key; rejected by stage 2",
+                       emit={k: fe[0][k] for k in ("mid", "s", "ak", "ck", "fv", "ov", "eq")}))
+    ok = [e for e in ev if e["ev"] == "Emit" and e["fv"] == "OK" and e["hasj"]]
+    if ok:
+        ck.sample(dict(stage="manager", emit={k: ok[0][k] for k in ("mid", "s", "ak", "ck", "jc", "fv", "ov", "eq")}))
     if foreign:
         ck.notes.append("code: on %d recorded emissions the real manager completed a message with a chain whose key differs from the announced key "
                         "(every one rejected by the real FullyValidateMessage, so C13 holds end to end): %s" % (foreign, FINDING))
